@@ -355,6 +355,8 @@ typedef struct
     int                     num_stops;
     pixman_repeat_t	    repeat;
 
+    pixman_fixed_48_16_t    offset;
+
     pixman_bool_t           need_reset;
 } pixman_gradient_walker_t;
 
